@@ -138,6 +138,30 @@ func genSvcs(r *wire.Rng, nss []string, hosts []string, n int, aliases bool) []s
 		}
 		out = append(out, s)
 	}
+	// Kubernetes ExternalName services (Resolution Alias): unique hostnames, pointing at a pool
+	// hostname, at another ExternalName service (chain) or at themselves (loop); their exportTo
+	// decides which namespaces may see the alias hostname on the concrete service.
+	if aliases {
+		var extHosts []string
+		for i, k := 0, r.Intn(4)-1; i < k; i++ {
+			ns := wire.Pick(r, nss)
+			s := svcSpec{id: fmt.Sprintf("x%d", i), ns: ns, k8s: true, ctime: r.Intn(6), vis: "p", res: 4}
+			s.hostname = fmt.Sprintf("ext%d.%s.svc.cluster.local", i, ns)
+			s.name = fmt.Sprintf("x%02d", i)
+			s.ports = []portSpec{{80, "p80"}}
+			s.exportTo = genExport(r, nss, ns, true)
+			switch {
+			case len(extHosts) > 0 && r.Chance(1, 4):
+				s.externalName = wire.Pick(r, extHosts)
+			case r.Chance(1, 12):
+				s.externalName = s.hostname
+			default:
+				s.externalName = wire.Pick(r, hosts)
+			}
+			extHosts = append(extHosts, s.hostname)
+			out = append(out, s)
+		}
+	}
 	return out
 }
 
